@@ -153,6 +153,35 @@ fn node(entity: EntityType, fill: u8) -> Vec<u8> {
     raw
 }
 
+
+/// One address of every global entity type, then internal ones.
+pub fn all_entity_types() -> Vec<EntityType> {
+    vec![
+        EntityType::GlobalPackage,
+        EntityType::GlobalFungibleResourceManager,
+        EntityType::GlobalNonFungibleResourceManager,
+        EntityType::GlobalGenericComponent,
+        EntityType::GlobalAccount,
+        EntityType::GlobalIdentity,
+        EntityType::GlobalAccessController,
+        EntityType::GlobalOneResourcePool,
+        EntityType::GlobalTwoResourcePool,
+        EntityType::GlobalMultiResourcePool,
+        EntityType::GlobalAccountLocker,
+        EntityType::GlobalPreallocatedSecp256k1Account,
+        EntityType::GlobalPreallocatedSecp256k1Identity,
+        EntityType::GlobalPreallocatedEd25519Account,
+        EntityType::GlobalPreallocatedEd25519Identity,
+        EntityType::GlobalValidator,
+        EntityType::GlobalConsensusManager,
+        EntityType::GlobalTransactionTracker,
+        EntityType::InternalFungibleVault,
+        EntityType::InternalNonFungibleVault,
+        EntityType::InternalGenericComponent,
+        EntityType::InternalKeyValueStore,
+    ]
+}
+
 fn decimal_bodies() -> Vec<Vec<u8>> {
     vec![Decimal::ZERO.to_vec(), Decimal::ONE.to_vec(), Decimal::MIN.to_vec(), Decimal::MAX.to_vec()]
 }
@@ -191,19 +220,7 @@ impl Flavor for Scrypto {
     const NAME: &'static str = "scrypto";
     fn custom_samples(kind: &ScryptoCustomTypeKind, _v: &ScryptoTypeValidation) -> Vec<Enc> {
         match kind {
-            ScryptoCustomTypeKind::Reference => vec![
-                Enc::new(0x80, node(EntityType::GlobalPackage, 1)),
-                Enc::new(0x80, node(EntityType::GlobalFungibleResourceManager, 2)),
-                Enc::new(0x80, node(EntityType::GlobalNonFungibleResourceManager, 2)),
-                Enc::new(0x80, node(EntityType::GlobalGenericComponent, 3)),
-                Enc::new(0x80, node(EntityType::GlobalAccount, 3)),
-                Enc::new(0x80, node(EntityType::GlobalPreallocatedEd25519Account, 3)),
-                Enc::new(0x80, node(EntityType::GlobalValidator, 3)),
-                Enc::new(0x80, node(EntityType::GlobalConsensusManager, 3)),
-                Enc::new(0x80, node(EntityType::InternalFungibleVault, 4)),
-                Enc::new(0x80, node(EntityType::InternalGenericComponent, 4)),
-                Enc::new(0x80, node(EntityType::InternalKeyValueStore, 4)),
-            ],
+            ScryptoCustomTypeKind::Reference => all_entity_types().into_iter().map(|e| Enc::new(0x80, node(e, 3))).collect(),
             ScryptoCustomTypeKind::Own => vec![
                 Enc::new(0x90, node(EntityType::InternalGenericComponent, 5)),
                 Enc::new(0x90, node(EntityType::InternalFungibleVault, 5)),
@@ -248,18 +265,7 @@ impl Flavor for Manifest {
             Enc::new(0x80, b)
         };
         match kind {
-            ScryptoCustomTypeKind::Reference => vec![
-                static_addr(EntityType::GlobalPackage, 1),
-                static_addr(EntityType::GlobalFungibleResourceManager, 2),
-                static_addr(EntityType::GlobalNonFungibleResourceManager, 2),
-                static_addr(EntityType::GlobalGenericComponent, 3),
-                static_addr(EntityType::GlobalAccount, 3),
-                static_addr(EntityType::GlobalValidator, 3),
-                static_addr(EntityType::InternalFungibleVault, 4),
-                static_addr(EntityType::InternalKeyValueStore, 4),
-                named_addr(0),
-                named_addr(u32::MAX),
-            ],
+            ScryptoCustomTypeKind::Reference => all_entity_types().into_iter().map(|e| static_addr(e, 3)).chain([named_addr(0), named_addr(u32::MAX)]).collect(),
             ScryptoCustomTypeKind::Own => vec![
                 Enc::new(0x81, 0u32.to_le_bytes().to_vec()),
                 Enc::new(0x81, u32::MAX.to_le_bytes().to_vec()),
